@@ -256,6 +256,20 @@ pub fn main(tier: Tier, seed: u64) -> i32 {
             shapes.push((format!("chain{ands}/n{n}/e{p_eval}"), MpcCase { inputs: c.inputs_from_mask(0b11), circ: c.clone(), p_eval, p_out: vec![0, n - 1], tmp_mask: 0b10 }));
         }
     }
+    // more than 2^16 registers: every per-register message of the online phase exceeds any plausible
+    // chunking threshold
+    {
+        let wide = 70_000usize;
+        let mut b = B::new(&[wide, 1]);
+        let x = b.xor(0, (wide - 1) as u32);
+        let y = b.and(x, wide as u32);
+        let c = b.out(&[y, x]);
+        let mut inputs = vec![vec![false; wide], vec![true]];
+        inputs[0][0] = true;
+        for p_eval in [0usize, 1] {
+            shapes.push((format!("wide{wide}/n2/e{p_eval}"), MpcCase { inputs: inputs.clone(), circ: c.clone(), p_eval, p_out: vec![0, 1], tmp_mask: 0 }));
+        }
+    }
     for n in [2usize, 3, 4] {
         for (name, c) in crate::circuits::feature_circuits(n).into_iter().take(if tier.is_thorough() { 8 } else if n == 4 { 1 } else { 3 }) {
             for p_eval in if n == 4 { vec![1] } else { (0..n).collect::<Vec<_>>() } {
